@@ -2,6 +2,7 @@ import IronCalc.Formula.LexProofs
 import IronCalc.Formula.LexCfgs
 import IronCalc.Formula.LexCfgProofs
 import IronCalc.Formula.LexConc
+import IronCalc.Formula.LexProofsRC
 import IronCalc.Formula.RoundTripMain
 import IronCalc.Generated.ParenStringify
 /-
@@ -96,15 +97,29 @@ theorem C09Lex_roundtrip_running (L : Nat) (hL : L < 5) (dec : Char) (hdec : dec
 /-- which tokens glue with a following `:` (the only printer-made adjacency that can): a number
     (A1 row range `3:5`), a reference (`A1:B2` is one range token; a qualified or `$` reference
     before `:` and a non-reference is rejected), an identifier spelled like a column (`x:`) -/
-theorem C09Lex_colon_glue (cfg : LexCfg) (t : CTok) :
+theorem C09Lex_colon_glue (cfg : LexCfg) (ha : cfg.a1 = true) (t : CTok) :
     badNext cfg t ':' = true ↔
       (∃ d, t = .num d) ∨ (∃ sh r, t = .ref sh r) ∨
       (∃ s, t = .ident s ∧ (isIdentChar cfg.cc ':' = true ∨ isValidColumn (upperStr cfg s) = true)) ∨
       (∃ b, t = .bool b ∧ isIdentChar cfg.cc ':' = true) ∨
       (t = .spill ∧ errSecond cfg.errors ':' = true) := by
-  cases t <;> simp [badNext]
+  cases t <;> simp [badNext, ha]
   case cmp k => cases k <;> simp
   case range sh l r => split <;> decide
+
+/-- the same in R1C1 mode (the stored form): only a REFERENCE glues with a following `:`
+    (`R1C1:R2C2` is one range token; a sheet-qualified reference before `:` and a non-reference is
+    rejected) — a number or a name before `:` is read back as written -/
+theorem C09Lex_colon_glue_r1c1 (cfg : LexCfg) (h : CfgRC cfg) (t : CTok) :
+    badNext cfg t ':' = true ↔
+      (∃ sh r, t = .ref sh r) ∨ (t = .spill ∧ errSecond cfg.errors ':' = true) := by
+  have hi : isIdentChar cfg.cc ':' = false := by
+    simp [isIdentChar, h.special_not_alnum ':' (by decide)]
+  have hd : ':' ≠ cfg.decimal := by
+    rcases h.decimal with e | e <;> rw [e] <;> decide
+  cases t <;> simp [badNext, h.rc, hi, hd]
+  case cmp k => cases k <;> simp
+  case num d => decide
 
 /-! ### the printer's token lists are glue-free, except at the known glue shapes -/
 
@@ -335,5 +350,103 @@ example : lex cfgEn (render cfgEn (concL exI (pr IronCalc.Generated.parenStringi
 /-- … and a glue site: `(A1):$B$2` is printed `A1:$B$2` (F09-glue-refref) -/
 example : (Node.rng (.lit .ref 0) (.lit .wrongRef 0)).noGlue (csOf cfgEn exI)
     IronCalc.Generated.parenStringify = false := by decide +kernel
+
+/-! ## R1C1 mode — the STORED form of every formula (`to_rc_format`, English, `.` and `,`) -/
+
+/-- **One token, R1C1 mode.**  References are `R1C1`, `R[1]C[-2]`, `R[0]C3` … (any `i32` row and
+    column, absolute or offset), ranges `R1C1:R[2]C[2]`, unquoted or quoted sheet prefix.
+    Identifiers: `identOK` asks for `rcSafe` (not `R`, not `R` followed by a digit). -/
+theorem C09Lex_token_r1c1 (cfg : LexCfg) (h : CfgRC cfg) (t : CTok) (rest : List Char)
+    (hok : tokOK cfg t = true) (hf : follow cfg t rest = true) :
+    nextToken cfg (renderTok cfg t ++ rest) = some (t, rest) :=
+  nextToken_renderTok_rc cfg h t rest hok hf
+
+/-- **Lexer round trip in R1C1 mode (all token lists, unbounded length).** -/
+theorem C09Lex_roundtrip_r1c1 (cfg : LexCfg) (h : CfgRC cfg) (ts : List CTok)
+    (hok : ∀ t, t ∈ ts → tokOK cfg t = true) (hg : glueFree cfg ts = true) :
+    lex cfg (render cfg ts) = ts :=
+  lex_render_any cfg (Or.inr h) ts hok hg
+
+/-- the hypotheses hold for `Lexer::new(_, LexerMode::R1C1, locale, language)` with the tables
+    extracted on this run; the stored form uses `en`/`en` (index 1, `.`) -/
+theorem C09Lex_cfg_ok_r1c1 (L : Nat) (hL : L < 5) (dec : Char) (hdec : dec = '.' ∨ dec = ',') :
+    CfgRC (cfgOf false dec L) := cfgOf_rc_ok L hL dec hdec
+
+/-- **`to_rc_format` never writes two tokens that glue — except a reference before a colon.**
+    Same printer, same paren table as the display form (`stringify` with `context = None`); the
+    glue sites of the stored form are the `OpRange`s whose left operand is printed unparenthesised
+    and ends in a REFERENCE (`C09Lex_colon_glue_r1c1`: F09-glue-refref, F09-glue-qualified) —
+    numbers and names before `:` are safe in R1C1 mode. -/
+theorem C09Lex_printer_glueFree_r1c1 (cfg : LexCfg) (hcfg : CfgRC cfg) (I : Interp)
+    (hI : InterpOK cfg I) (T : Table) (e : Node) (hng : e.noGlue (csOf cfg I) T = true) :
+    (∀ t, t ∈ concL I (pr T e) → tokOK cfg t = true) ∧ glueFree cfg (concL I (pr T e)) = true :=
+  concL_glueFree cfg (Or.inr hcfg) I hI (pr T e) (pr_eseg (csOf cfg I) T e hng).chain
+
+theorem C09Lex_print_lex_r1c1 (cfg : LexCfg) (hcfg : CfgRC cfg) (I : Interp) (hI : InterpOK cfg I)
+    (T : Table) (e : Node) (hng : e.noGlue (csOf cfg I) T = true) :
+    lex cfg (render cfg (concL I (pr T e))) = concL I (pr T e) := by
+  obtain ⟨hok, hg⟩ := C09Lex_printer_glueFree_r1c1 cfg hcfg I hI T e hng
+  exact C09Lex_roundtrip_r1c1 cfg hcfg _ hok hg
+
+/-- **Composition for the stored form: tree → `to_rc_format` text → R1C1 lexer → parser = tree.** -/
+theorem C09Lex_compose_r1c1 (cfg : LexCfg) (hcfg : CfgRC cfg) (I : Interp) (hI : InterpOK cfg I)
+    (iv : Nat → Bool) (T : Table) (hT : TableOK T) (e : Node) (hwf : e.wf iv = true)
+    (hng : e.noGlue (csOf cfg I) T = true)
+    (ab : List CTok → List Tok) (hab : ab (concL I (pr T e)) = pr T e) :
+    ∃ f0, ∀ f, f0 ≤ f → P iv f 0 (ab (lex cfg (render cfg (concL I (pr T e))))) = some (e, []) := by
+  rw [C09Lex_print_lex_r1c1 cfg hcfg I hI T e hng, hab]
+  exact roundtrip_main iv hT e hwf
+
+/-! ### non-vacuity and the glue shapes of the stored form -/
+
+/-- `Lexer::new(_, LexerMode::R1C1, en, en)` -/
+def cfgRc : LexCfg := cfgOf false '.' IronCalc.Generated.Names.enIdx
+
+theorem cfgRc_ok : CfgRC cfgRc := cfgOf_rc_ok 1 (by decide) '.' (Or.inl rfl)
+
+def rcAbs : PRef := { column := 1, row := 1, absCol := true, absRow := true }
+def rcRel : PRef := { column := -2, row := 0, absCol := false, absRow := false }
+def rcMix : PRef := { column := 16384, row := 3, absCol := true, absRow := false }
+
+/-- `SUM(R1C1,"a""b")<=1.5e-5+'My Sheet'!R[3]C16384%&TRUE#*#N/A<R[0]C[-2]^x_1:S2!R1C1,R1C1:R[3]C16384,…` -/
+def rcToks : List CTok :=
+  [.ident "SUM".toList, .lp, .ref none rcAbs, .comma, .str "a\"\"b".toList, .rp, .cmp .le,
+   .num "1.5e-5".toList, .add, .ref (some "My Sheet".toList) rcMix, .pct, .amp, .bool true, .spill,
+   .mul, .err 4, .cmp .lt, .ref none rcRel, .pow, .ident "x_1".toList, .colon,
+   .ref (some "S2".toList) rcAbs, .comma, .range none rcAbs rcMix, .comma,
+   .range (some "My Sheet".toList) rcRel rcAbs, .comma, .num "1".toList, .colon, .ident "ROUND".toList,
+   .lp, .ident "x".toList, .colon, .ident "RC".toList, .rp]
+
+example : (rcToks.all (tokOK cfgRc) && glueFree cfgRc rcToks) = true := by decide +kernel
+
+example : lex cfgRc (render cfgRc rcToks) = rcToks := by decide +kernel
+
+/-- F09-glue-refref in the stored form: `R1C1` `:` `R[0]C[-2]` is read back as ONE range token -/
+theorem C09Lex_glue_refref_r1c1 :
+    glueFree cfgRc [.ref none rcAbs, .colon, .ref none rcRel] = false ∧
+    lex cfgRc (render cfgRc [.ref none rcAbs, .colon, .ref none rcRel]) = [.range none rcAbs rcRel] := by
+  decide +kernel
+
+/-- F09-glue-qualified in the stored form: `S2!R1C1` `:` `rate` is rejected -/
+theorem C09Lex_glue_qualified_r1c1 :
+    glueFree cfgRc [.ref (some "S2".toList) rcAbs, .colon, .ident "rate".toList] = false ∧
+    lex cfgRc (render cfgRc [.ref (some "S2".toList) rcAbs, .colon, .ident "rate".toList]) = [.illegal] := by
+  decide +kernel
+
+/-- numbers and column-like names before `:` do NOT glue in the stored form -/
+example : lex cfgRc (render cfgRc [.num ['1'], .colon, .ident ['x'], .colon, .ref none rcAbs])
+    = [.num ['1'], .colon, .ident ['x'], .colon, .ref none rcAbs] := by decide +kernel
+
+/-- **F26-r1c-name** (repaired): a name of the form `R<digits>C` is a valid identifier (LAMBDA
+    parameter, LET variable, defined name).  In the pinned tree the R1C1 lexer read the stored text
+    `R1C+1` as the REFERENCE `R1C1` (consume_reference_r1c1 took `+1` as the column number), so
+    `=LET(R1C,5,R1C+1)` became `=LET(R1C,5,$A$1)` after save/load.  After the fix (an unbracketed row
+    or column starts with a digit) the text is read back as identifier, plus, number.  Such names
+    still fail `tokOK` (`rcSafe` is a sufficient condition): they are outside the theorem, inside the tie. -/
+theorem C09Lex_r1c_name_repaired :
+    tokOK cfgRc (.ident "R1C".toList) = false ∧
+    lex cfgRc (render cfgRc [.ident "R1C".toList, .add, .num ['1']])
+      = [.ident "R1C".toList, .add, .num ['1']] := by
+  decide +kernel
 
 end IronCalc.Formula
